@@ -57,6 +57,11 @@ TRUSTED = [
     "Manager.send_open on the real Outbound/Inbound/SubChannel (held pending by the real SubchannelDemultiplex); the finite "
     "certificate with these features (absS) allows one link at a time and one record per side — the 2-link certificate (absK) "
     "has no records, timer expiry or silent loss; both are exercised together only by the differential runs",
+    "the transit relay is an in-memory sided relay reachable by both sides (it joins two connections that present the same "
+    "token, says ok to both and then only forwards); at most ONE side is configured with it; a connection closed while it "
+    "waits at the relay is forgotten by the relay at once; the relay path counts for the proviso while both legs are possible "
+    "(WV.C11.relayLeg), a leg through a hint from the moment the hint of that generation is sent; the relay certificate (absR) "
+    "has no records / timer / silent loss and leaves out the networks where both sides can also dial directly",
     "network reachability is a per-run constant: the set of sides whose DIALLED connections get through (both, only A, only B; "
     "an unreachable dial fails with ConnectError/TimeoutError); the proviso 'at least one attempt of the new generation may "
     "complete' = the network never drops the last VIABLE candidate, where fresh hints count from the moment they are sent "
@@ -69,7 +74,8 @@ RULE = ("guided random schedules of the two-sided dilation world (profiles: plai
         "(real Outbound: un-acked records are re-sent on every new connection) and their Acks/Pings/Pongs delivered one by one, "
         "timer-style disconnects; every step compared with the Lean model (both Manager/Connector/DCP states, roles, "
         "Manager._connection, eventual queues, channels); every schedule runs in one of three networks (both sides can dial, only A, "
-        "only B) and must re-converge in all of them; thorough adds the exhaustive interleavings of one loss + reconnect (after "
+        "only B), 30% of them with a transit relay configured on one side (then also: nobody can dial directly), and must re-converge "
+        "in all of them; thorough adds the exhaustive interleavings of one loss + reconnect (after "
         "selection on both sides, and while the follower is still CONNECTING) with both-way and leader-only dialling; "
         "non-trivial = a link was selected on at least one side; distinct = distinct canonical traces")
 
@@ -145,6 +151,58 @@ class Link:
         self.sil = {"A": False, "B": False}   # silent loss: what that side writes is no longer delivered; nobody is told
         self.end = {}
         self.proto = {}
+        self.relay = False                    # joined by the transit relay: both ends dialled
+
+
+class RelayHalf(PipeEnd):
+    """a connection to the transit relay that has sent its `please relay … for side …` line and waits there for the
+    peer's; once the relay has joined the two it is an ordinary end of a Link"""
+
+    def __init__(self, who):
+        super().__init__(None, who)
+        self.pre = b""
+
+    def write(self, data):
+        if self.link is None:
+            self.pre += bytes(data)
+        else:
+            super().write(data)
+
+
+RELAY_HOST = "relay.example"
+RELAY_LOCATION = "tcp:%s:4001" % RELAY_HOST
+
+
+class RelayEP:
+    """the in-memory sided transit relay, reachable by both sides"""
+    port = None
+
+    def __init__(self, world, side):
+        self.world, self.side = world, side
+
+    def connect(self, factory):
+        w = self.world
+        me = self.side.name
+        other = "B" if me == "A" else "A"
+        p = factory.buildProtocol(IPv4Address("TCP", "127.0.0.9", 4001))
+        end = RelayHalf(me)
+        p.makeConnection(end)                       # writes the sided relay handshake
+        waiting = w.rhalf[other]
+        if waiting is not None and waiting[1].status == "open":
+            pp, pend = waiting
+            assert end.pre.split(b" for side ")[0] == pend.pre.split(b" for side ")[0], "relay tokens differ"
+            w.rhalf[other] = None
+            link = Link(me)
+            link.relay = True
+            link.proto = {me: p, other: pp}
+            link.end = {me: end, other: pend}
+            end.link = pend.link = link
+            w.place(link)
+            pp.dataReceived(b"ok\n")                # the relay tells both that the peer is there
+            p.dataReceived(b"ok\n")
+        else:
+            w.rhalf[me] = (p, end)
+        return defer.succeed(p)
 
 
 class Port:
@@ -215,6 +273,7 @@ class Side:
         self.eq = EventualQueue(self.eqclock)
         self.coop = Cooperator(terminationPredicateFactory=lambda: (lambda: True), scheduler=self.eq.eventually)
         self.sent = []            # (phase, plaintext) in sending order
+        self.sent_con = []
         self.arrived = set()      # indices into the PEER's `sent` already handed to our Boss stub
         self.ports = []
         self.endpoints = []       # ClientEPs in creation order (one per scheduled connection)
@@ -225,6 +284,7 @@ class Side:
         class _S:
             def send(self, phase, plaintext):
                 outer.sent.append((phase, plaintext))
+                outer.sent_con.append(outer.con)      # the Connector on whose behalf it was sent
         self.term = mock.Mock()
         alsoProvides(self.term, ITerminator)
         self.dilator = dman.Dilator(self.rclock, self.eq, self.coop, ["ged"])
@@ -257,7 +317,10 @@ def phase_num(phase):
 
 
 class World:
-    def __init__(self, sa, sb, reach="AB"):
+    def __init__(self, sa, sb, reach="AB", relay=None):
+        # the side (at most one) that is configured with a transit relay; the relay is reachable by both
+        self.relay_cfg = relay
+        self.rhalf = {"A": None, "B": None}       # (protocol, RelayHalf) waiting at the relay
         # reachability of the network, fixed for the run: the sides whose DIALLED connections get through to the
         # peer's listener (the other side is behind NAT / a firewall, or the peer does not listen)
         self.reach = {"A": "A" in reach, "B": "B" in reach}
@@ -342,8 +405,16 @@ class World:
         return False
 
     def msg_name(self, sender, plaintext):
-        t = json.loads(plaintext.decode("utf-8"))["type"]
+        msg = json.loads(plaintext.decode("utf-8"))
+        t = msg["type"]
         if t == "connection-hints":
+            if any(h.get("type") == "relay-v1" for h in msg.get("hints", [])):
+                k = None
+                for i, (_, pt) in enumerate(sender.sent):
+                    if pt is plaintext:
+                        k = i
+                fresh = k is not None and sender.con is not None and sender.sent_con[k] is sender.con
+                return "rhints" + ("1" if fresh else "0")
             return "hints" + ("1" if self.hint_fresh(sender, plaintext) else "0")
         return t
 
@@ -364,8 +435,12 @@ class World:
         peer = self.peer(x)
         att = []
         for dc, ep in s.pending_attempts():
+            if isinstance(ep, RelayEP):
+                att.append("R")
+                continue
             port = self.ports.get(ep.port)
             att.append("1" if (port is not None and peer.con is not None and port.factory._connector is peer.con) else "0")
+        rh = "-" if self.rhalf[x] is None else self.owner(s, self.rhalf[x][0])
         conn = "-"
         if m._connection is not None:
             k = self.slot_of(m._connection)
@@ -375,7 +450,7 @@ class World:
             k = self.slot_of(p)
             eqs.append(kind + (str(k) if k is not None else "?"))
         tt = "-" if m._traffic is None else automat_state(m._traffic)
-        return (base + f" mgr={automat_state(m)} role={role} con={cst} lst={lst} stale={stale} att=[{','.join(att)}] conn={conn} "
+        return (base + f" mgr={automat_state(m)} role={role} con={cst} lst={lst} stale={stale} att=[{','.join(att)}] rh={rh} conn={conn} "
                 f"eq=[{','.join(eqs)}] tt={tt} gen={m._next_dilation_generation} "
                 f"tm={1 if self.ping_timer(s) is not None else 0} oq=[{','.join(str(r.seqnum) for r in m._outbound._outbound_queue)}] "
                 f"rxh={m._inbound._highest_inbound_acked + 1}")
@@ -409,7 +484,7 @@ class World:
             return f"{i}:free"
         ld = self.role_name(LEADER)
         fo = self.role_name(FOLLOWER)
-        parts = [f"{i}:dial={l.dialer}"]
+        parts = [f"{i}:dial={'R' if l.relay else l.dialer}"]
         if ld is not None and fo is not None:
             hs = "1" if (l.ntok[fo] >= 2 and l.ntok[ld] >= 2) else "0"
             kf = "1" if (l.ntok[fo] == 2 and self.tokens_ready(l, fo) >= 1) else "0"
@@ -517,6 +592,8 @@ class World:
             peer = self.peer(x)
             if s.mgr is not None and self.reach[x]:
                 for dc, ep in s.pending_attempts():
+                    if isinstance(ep, RelayEP):
+                        continue
                     port = self.ports.get(ep.port)
                     if port is not None and peer.con is not None and port.factory._connector is peer.con:
                         n += 1
@@ -527,7 +604,24 @@ class World:
                 pts += list(peer.boss._rx_dilate_seqnums.values())
                 pts += list(peer.dilator._pending_inbound_dilate_messages)
                 n += sum(1 for pt in pts if self.msg_name(s, pt) == "hints1")
+        if self.relay_leg("A") and self.relay_leg("B"):
+            n += 1
         return n
+
+    def relay_leg(self, x):
+        """`WV.C11.relayLeg`: x waits at the relay, or its dial is scheduled, or the relay hint of the peer's CURRENT
+        generation has been SENT to it and not yet processed"""
+        s = self.sides[x]
+        peer = self.peer(x)
+        h = self.rhalf[x]
+        if h is not None and h[1].status == "open" and self.owner(s, h[0]) == "cur":
+            return True
+        if s.mgr is not None and any(isinstance(ep, RelayEP) for dc, ep in s.pending_attempts()):
+            return True
+        pts = [pt for k, (ph, pt) in enumerate(peer.sent) if k not in s.arrived]
+        pts += list(s.boss._rx_dilate_seqnums.values())
+        pts += list(s.dilator._pending_inbound_dilate_messages)
+        return any(self.msg_name(peer, pt) == "rhints1" for pt in pts)
 
     def kill_ok(self, i):
         """`WV.C11.killOK`: the network may drop anything but the LAST candidate of the newest generation"""
@@ -627,7 +721,10 @@ class World:
                     else:
                         s.dilate_called = True
                         with mock.patch.object(dman, "make_side", lambda: s.sidestr):
-                            s.dilator.dilate()
+                            if self.relay_cfg == x:
+                                s.dilator.dilate(transit_relay_location=RELAY_LOCATION)
+                            else:
+                                s.dilator.dilate()
                 elif k == "connect":
                     pa = s.pending_attempts()
                     if not pa:
@@ -737,6 +834,13 @@ class World:
             logged.append(f.type.__name__ if f is not None else "error")
             self.details.append(describe_exc(f.value) if f is not None else "error")
         del LOGGED[nlog:]
+        # a connection that was closed while it waited at the relay: the relay forgets it, the protocol is told
+        for y in "AB":
+            h = self.rhalf[y]
+            if h is not None and h[1].status == "closing":
+                h[1].status = "lost"
+                self.rhalf[y] = None
+                h[0].connectionLost(failure.Failure(ConnectionDone()))
         self.gc()
         if skipped:
             outcome = "skip"
@@ -784,7 +888,7 @@ def patches(world):
     def ep_from_hint(h, tor, reactor):
         for s in world.sides.values():
             if s.rclock is reactor:
-                ep = ClientEP(world, s, h.port)
+                ep = RelayEP(world, s) if h.hostname == RELAY_HOST else ClientEP(world, s, h.port)
                 s.endpoints.append(ep)
                 return ep
         raise AssertionError("unknown reactor")
@@ -944,19 +1048,19 @@ def cooperative_completion(w, log):
 
 # ---------------------------------------------------------------------------------------------
 
-def run_ops(sa, sb, ops, choose=None, nsteps=0, final=True, reach="AB"):
+def run_ops(sa, sb, ops, choose=None, nsteps=0, final=True, reach="AB", relay=None):
     """runs explicit `ops` (list of [op…, seed]) or, if `choose` is given, picks `nsteps` enabled ops;
     `reach`: the sides whose dialled connections get through (at least one: the property's proviso)"""
     del LOGGED[:]
-    w = World(sa, sb, reach)
+    w = World(sa, sb, reach, relay)
     ps = patches(w)
     for p in ps:
         p.start()
     try:
-        lines = [f"init {sa.encode().hex() or '-'} {sb.encode().hex() or '-'} {int(w.reach['A'])} {int(w.reach['B'])}"]
+        lines = [f"init {sa.encode().hex() or '-'} {sb.encode().hex() or '-'} {int(w.reach['A'])} {int(w.reach['B'])} {relay or '-'}"]
         exp = ["ok | " + w.show()]
         viol = []
-        tags = {"reach:" + reach}
+        tags = {"reach:" + (reach or "none"), "relay:" + (relay or "none")}
         done = []
         observations = []
 
@@ -1009,6 +1113,8 @@ def run_ops(sa, sb, ops, choose=None, nsteps=0, final=True, reach="AB"):
                 if not en:
                     break
                 op, seed = choose(w, en)
+                if op is None:
+                    break
                 step(op, seed)
         if final and sa != sb and not any(s.startswith("exception:") and s != KNOWN_STOPPED_CANDIDATE for s, _ in viol):
             log = []
@@ -1051,6 +1157,10 @@ KNOWN_STOPPED_CANDIDATE = "exception:NoTransition:Connector.stopped:add_candidat
 SETUP = [["key", "A", 0], ["key", "B", 0], ["vers", "A", 0], ["vers", "B", 0], ["dilate", "A", 0], ["dilate", "B", 0],
          ["arrive", "A", 0, 0], ["arrive", "B", 0, 0], ["arrive", "A", 1, 0], ["connect", "A", 0], ["hs", 0, 3], ["kcmf", 0, 5],
          ["turn", "A", 0]]
+RELAY_SETUP = [["key", "A", 0], ["key", "B", 0], ["vers", "A", 0], ["vers", "B", 0], ["dilate", "A", 0], ["dilate", "B", 0],
+               ["arrive", "A", 0, 0], ["arrive", "B", 0, 0], ["arrive", "B", 1, 0], ["arrive", "B", 2, 0],
+               ["connect", "A", 0], ["connect", "B", 0], ["connect", "B", 0], ["hs", 0, 3], ["kcmf", 0, 5], ["turn", "A", 0],
+               ["kcml", 0, 2], ["turn", "B", 0]]
 CORPUS = [
     # WV.Props.C11.witnessRun: leader's KCM reaches an inbound link of a Connector the follower stopped
     dict(sa="b", sb="a", ops=SETUP + [["lose", "A", 0, 0], ["turn", "A", 0], ["arrive", "B", 1, 0], ["arrive", "B", 2, 0], ["kcml", 0, 1]]),
@@ -1097,6 +1207,18 @@ CORPUS = [
                                       ["lose", "B", 0, 0], ["turn", "B", 0], ["arrive", "B", 1, 0], ["arrive", "B", 2, 0], ["arrive", "A", 2, 0],
                                       ["arrive", "A", 3, 0], ["connect", "A", 0], ["hs", 0, 1], ["kcmf", 0, 1], ["turn", "A", 0], ["kcml", 0, 1],
                                       ["more", "A", 0, 1], ["turn", "B", 0], ["more", "B", 0, 1], ["more", "B", 0, 1]]),
+    # WV.Props.C11.afterLossRelayOnly: A (leader) is configured with the transit relay, nobody can dial directly; first
+    # connection through the relay; lost; the relay hint must be published AGAIN in generation 2 or the peer never dials
+    dict(sa="b" * 16, sb="a" * 16, reach="", relay="A", ops=RELAY_SETUP + [["lose", "A", 0, 0], ["turn", "A", 0]]),
+    # the same with the FOLLOWER configured, loss noticed by the follower first
+    dict(sa="b" * 16, sb="a" * 16, reach="", relay="B",
+         ops=[["key", "A", 0], ["key", "B", 0], ["vers", "A", 0], ["vers", "B", 0], ["dilate", "A", 0], ["dilate", "B", 0],
+              ["arrive", "A", 0, 0], ["arrive", "B", 0, 0], ["arrive", "A", 1, 0], ["arrive", "A", 2, 0], ["arrive", "B", 1, 0],
+              ["connect", "B", 0], ["connect", "A", 0], ["connect", "A", 0], ["connect", "B", 0], ["hs", 0, 5], ["kcmf", 0, 1], ["turn", "A", 0],
+              ["kcml", 0, 1], ["turn", "B", 0], ["lose", "B", 0, 0], ["turn", "B", 0], ["lose", "A", 0, 0], ["turn", "A", 0]]),
+    # relay AND a direct path (only the follower can dial): both candidates complete, the leader picks one
+    dict(sa="b" * 16, sb="a" * 16, reach="B", relay="A", ops=RELAY_SETUP[:10] + [["arrive", "A", 1, 0], ["connect", "A", 0], ["connect", "B", 0], ["connect", "B", 0],
+                                                                              ["hs", 0, 1], ["hs", 1, 2], ["kcmf", 1, 1], ["kcmf", 0, 1], ["turn", "A", 0], ["turn", "A", 0]]),
     # equal sides: ValueError on both
     dict(sa="same", sb="same", ops=[["key", "A", 0], ["vers", "A", 0], ["dilate", "A", 0], ["key", "B", 0], ["vers", "B", 0], ["dilate", "B", 0],
                                     ["arrive", "A", 0, 0], ["arrive", "B", 0, 0]]),
@@ -1129,10 +1251,13 @@ def weight(profile, w, op):
     return 1.0
 
 
-def guided(seed, n, profile):
+def guided(seed, n, profile, relay=None):
     rng = random.Random(seed)
     if profile == "equal":
-        sa = sb = "same"
+        sa = sb = "same" if relay is None else "5a" * 8
+    elif relay is not None:
+        # the sided relay handshake needs the real 16-hex-digit sides
+        sa, sb = "%016x" % rng.getrandbits(64), "%016x" % rng.getrandbits(64)
     else:
         pool = ["a", "b", "ab", "aa", "a0", "B", "", "é", "z", "10", "9", "abc", "abd", "\U0001f600", "￿"]
         sa = rng.choice(pool)
@@ -1143,7 +1268,9 @@ def guided(seed, n, profile):
     def choose(w, en):
         ws = [weight(profile, w, op) for op in en]
         if sum(ws) <= 0:
-            ws = [1.0] * len(en)
+            ws = [0.0 if op[0] == "write" else 1.0 for op in en]
+            if sum(ws) <= 0:
+                return None, 0          # nothing but more application writes is possible: the schedule ends
         op = rng.choices(en, weights=ws)[0]
         return op, rng.randrange(10**6)
     return sa, sb, choose
@@ -1154,18 +1281,26 @@ REACH = ["AB", "A", "B"]
 
 def run_case(case):
     reach = case.get("reach", "AB")
+    relay = case.get("relay")
     if "ops" in case:
-        return run_ops(case["sa"], case["sb"], case["ops"], reach=reach)
-    sa, sb, choose = guided(case["seed"], case["n"], case["profile"])
-    return run_ops(sa, sb, None, choose=choose, nsteps=case["n"], reach=reach)
+        return run_ops(case["sa"], case["sb"], case["ops"], reach=reach, relay=relay)
+    sa, sb, choose = guided(case["seed"], case["n"], case["profile"], relay)
+    return run_ops(sa, sb, None, choose=choose, nsteps=case["n"], reach=reach, relay=relay)
+
+
+def rand_net(rng):
+    """(reach, relay): a network in which at least one path exists — direct dialling by A and/or B, or the relay"""
+    if rng.random() < 0.3:
+        return rng.choice(["", "", "A", "B", "AB"]), rng.choice(["A", "B"])
+    return rng.choice(["AB", "AB", "A", "B"]), None
 
 
 def explicit(case):
     if "ops" in case:
         return case
     r = run_case(case)
-    sa, sb, _ = guided(case["seed"], case["n"], case["profile"])
-    return dict(sa=sa, sb=sb, ops=r.info["ops"], reach=case.get("reach", "AB"))
+    sa, sb, _ = guided(case["seed"], case["n"], case["profile"], case.get("relay"))
+    return dict(sa=sa, sb=sb, ops=r.info["ops"], reach=case.get("reach", "AB"), relay=case.get("relay"))
 
 
 def exhaustive_loss_cases():
@@ -1231,8 +1366,9 @@ def cases(rng, tier):
         out.append(dict(seed=500 + i, n=60, profile=p, reach=REACH[i % 3]))
     n = 300 if tier == "quick" else 6000
     for _ in range(n):
+        reach, relay = rand_net(rng)
         out.append(dict(seed=rng.randrange(10**9), n=rng.choice([25, 50, 90, 150]), profile=rng.choice(PROFILES[:-1] if rng.random() < 0.95 else PROFILES),
-                        reach=rng.choice(["AB", "AB", "A", "B"])))
+                        reach=reach, relay=relay))
     return out
 
 
@@ -1252,5 +1388,6 @@ def search(rng, seconds, seeds):
     for c in seeds:
         yield c, run_case(c)
     while time.time() - t0 < seconds:
-        c = dict(seed=rng.randrange(10**9), n=rng.choice([50, 90, 150]), profile=rng.choice(PROFILES[:-1]), reach=rng.choice(REACH))
+        reach, relay = rand_net(rng)
+        c = dict(seed=rng.randrange(10**9), n=rng.choice([50, 90, 150]), profile=rng.choice(PROFILES[:-1]), reach=reach, relay=relay)
         yield c, run_case(c)
